@@ -53,8 +53,16 @@ def parsePairs (sep : String) (ws : List String) : List (String × String) :=
 
 def dedup (l : List String) : List String := l.foldl (fun acc x => if acc.contains x then acc else acc ++ [x]) []
 
+/-- The stored dependency graph of the model (`s.graph`), forward edges. -/
+def graphDump (ck : Checker String Nat String String) (s : St) : String :=
+  let ks := dedup (keys s.graph)
+  if ks.isEmpty then "#graph=-" else
+  "#graph=" ++ ";".intercalate (ks.map (fun k =>
+    let es := dedup (fwdEdges ck s.graph k)
+    k ++ ">" ++ (if es.isEmpty then "-" else ",".intercalate es)))
+
 def observe (d : D) (s : St) : String :=
-  " ".intercalate (d.univ.map (fun k =>
+  (fun o => o ++ " " ++ graphDump (mkChecker d) s) <| " ".intercalate (d.univ.map (fun k =>
     let es := dedup (getErrors s k)
     k ++ "=" ++ toString ((if (lookup s.sources k).isSome then 3 else 0) +
         (if s.checked.contains k then 4 else 0)) ++
